@@ -9,13 +9,12 @@
 //! V is a json-syntax value (common::enc_value), J a serde_json value in the analogous
 //! encoding with numbers `u<decimal>` (PosInt) `i<decimal>` (NegInt) `d<16 hex>` (Float bits).
 //!
-//! ORACLE tokens record, for exactly the dependency calls the conversion makes on this
+//! ORACLE tokens record, for exactly the float-printing calls the conversion makes on this
 //! input, what the dependency answered.  They are produced by calling json-number /
 //! serde_json directly, never json-syntax, and instantiate the model's section variables:
-//!   `L:<spelling>:<bits>`   NumberBuf::as_f64_lossy            (lexical, lossy)
 //!   `W:<bits>:<spelling>`   NumberBuf::try_from(f64)           (lexical write)
-//!   `P:<spelling>:<bits|E>` <serde_json::Number as FromStr>    (E = number out of range)
 //!   `R:<bits>:<spelling>`   <serde_json::Number as Display>    (ryu)
+//! (the double to be printed is the correctly rounded one of the spelling, `str::parse`).
 //! The evaluation of the implementation ignores them.
 use crate::common::*;
 use json_syntax::{object::Entry, NumberBuf, Object, Print, Value};
@@ -201,20 +200,14 @@ pub fn eval_c18(line: &str) -> String {
 }
 
 // ---------------------------------------------------------------- oracles (dependency calls only)
-fn nb(s: &str) -> NumberBuf {
-    NumberBuf::new(s.as_bytes().to_vec().into()).unwrap()
-}
 fn is_int64(s: &str) -> bool {
     s.parse::<u64>().is_ok() || s.parse::<i64>().is_ok()
 }
-fn o_lossy(s: &str) -> f64 {
-    nb(s).as_f64_lossy()
+fn nearest(s: &str) -> f64 {
+    s.parse::<f64>().unwrap()
 }
 fn o_lexw(x: f64) -> String {
     NumberBuf::try_from(x).unwrap().to_string()
-}
-fn o_sjparse(s: &str) -> Option<f64> {
-    s.parse::<serde_json::Number>().ok().and_then(|n| n.as_f64())
 }
 fn o_ryu(x: f64) -> String {
     serde_json::Number::from_f64(x).unwrap().to_string()
@@ -224,23 +217,10 @@ fn o_ryu(x: f64) -> String {
 struct Oracle(BTreeSet<String>);
 
 impl Oracle {
-    fn l(&mut self, s: &str) -> f64 {
-        let x = o_lossy(s);
-        self.0.insert(format!("L:{}:{:016x}", hex_str(s), x.to_bits()));
-        x
-    }
     fn w(&mut self, x: f64) {
         if x.is_finite() {
             self.0.insert(format!("W:{:016x}:{}", x.to_bits(), hex_str(&o_lexw(x))));
         }
-    }
-    fn p(&mut self, s: &str) -> Option<f64> {
-        let x = o_sjparse(s);
-        match x {
-            Some(f) => self.0.insert(format!("P:{}:{:016x}", hex_str(s), f.to_bits())),
-            None => self.0.insert(format!("P:{}:E", hex_str(s))),
-        };
-        x
     }
     fn r(&mut self, x: f64) -> String {
         let s = o_ryu(x);
@@ -283,8 +263,7 @@ fn case_v(op: &str, v: &Value) -> String {
         match op {
             "de" => {
                 if !is_int64(n) {
-                    let x = o.l(n);
-                    o.w(x);
+                    o.w(nearest(n));
                 }
             }
             "txt" => {
@@ -293,16 +272,13 @@ fn case_v(op: &str, v: &Value) -> String {
                     if i >= 0 {
                         o.w(-0.0);
                     }
-                } else if let Some(x) = o.p(n) {
-                    o.w(x);
+                } else {
+                    o.w(nearest(n));
                 }
             }
             "is" => {
                 if !is_int64(n) {
-                    let x = match o.p(n) {
-                        Some(x) => x,
-                        None => o.l(n),
-                    };
+                    let x = nearest(n);
                     if x.is_finite() {
                         o.r(x);
                     }
@@ -319,10 +295,7 @@ fn case_j(j: &J) -> String {
     floats_of(j, &mut fs);
     let mut o = Oracle::default();
     for x in fs {
-        let s = o.r(x);
-        if !is_int64(&s) && o.p(&s).is_none() {
-            o.l(&s);
-        }
+        o.r(x);
     }
     format!("fs {}| {}", o.text(), j_str(j))
 }
